@@ -55,8 +55,17 @@ pub struct Binder<'a> {
     aliases: HashMap<String, Expr>,
     /// Table aliases in scope
     table_aliases: HashMap<String, String>,
-    /// CTE definitions (WITH clauses)
+    /// CTE definitions (WITH clauses) visible at the point being bound
     ctes: HashMap<String, Arc<LogicalPlan>>,
+    /// For every visible CTE name, the statement-unique key of the definition
+    /// it currently denotes (`SubqueryAliasNode::cte_name`). The first
+    /// definition of a name is keyed by the name itself; a later WITH clause
+    /// that defines the same name again (an inner scope shadowing an outer
+    /// one, or a sibling scope) gets `name#2`, `name#3`, ... so the physical
+    /// planner's by-key materialization never conflates two definitions.
+    cte_keys: HashMap<String, String>,
+    /// How many definitions of each CTE name have been bound so far.
+    cte_defs_seen: HashMap<String, usize>,
     /// Outer scope columns for correlated subqueries (name -> (type, relation))
     #[allow(dead_code)] // Reserved for correlated subquery type checking
     outer_scope: HashMap<String, (ArrowDataType, Option<String>)>,
@@ -129,6 +138,8 @@ impl<'a> Binder<'a> {
             aliases: HashMap::new(),
             table_aliases: HashMap::new(),
             ctes: HashMap::new(),
+            cte_keys: HashMap::new(),
+            cte_defs_seen: HashMap::new(),
             outer_scope: HashMap::new(),
             named_windows: HashMap::new(),
             allow_window: false,
@@ -147,6 +158,8 @@ impl<'a> Binder<'a> {
             aliases: HashMap::new(),
             table_aliases: HashMap::new(),
             ctes,
+            cte_keys: HashMap::new(),
+            cte_defs_seen: HashMap::new(),
             outer_scope,
             named_windows: HashMap::new(),
             allow_window: false,
@@ -186,6 +199,20 @@ impl<'a> Binder<'a> {
     }
 
     fn bind_query(&mut self, query: &ast::Query) -> Result<LogicalPlan> {
+        // A WITH clause is visible in its own query only: names it defines
+        // (or shadows) must not leak into the rest of the statement, so the
+        // visible-CTE maps are restored once this query is bound.
+        if query.with.is_none() {
+            return self.bind_query_scoped(query);
+        }
+        let saved = (self.ctes.clone(), self.cte_keys.clone());
+        let result = self.bind_query_scoped(query);
+        self.ctes = saved.0;
+        self.cte_keys = saved.1;
+        result
+    }
+
+    fn bind_query_scoped(&mut self, query: &ast::Query) -> Result<LogicalPlan> {
         // Process CTEs (WITH clause) first
         if let Some(ref with_clause) = query.with {
             self.bind_ctes(with_clause)?;
@@ -285,7 +312,15 @@ impl<'a> Binder<'a> {
             let alias_name = cte.alias.name.value.clone();
             let cte_plan = self.bind_query(&cte.query)?;
 
-            // Store the CTE with its alias
+            // Store the CTE with its alias, under a statement-unique key
+            let seen = self.cte_defs_seen.entry(alias_name.clone()).or_insert(0);
+            *seen += 1;
+            let key = if *seen == 1 {
+                alias_name.clone()
+            } else {
+                format!("{}#{}", alias_name, *seen)
+            };
+            self.cte_keys.insert(alias_name.clone(), key);
             self.ctes.insert(alias_name.clone(), Arc::new(cte_plan));
         }
         Ok(())
@@ -1113,7 +1148,12 @@ impl<'a> Binder<'a> {
                         input: Arc::clone(cte_plan),
                         alias: alias_name.clone(),
                         schema: aliased_schema,
-                        cte_name: Some(table_name.clone()),
+                        cte_name: Some(
+                            self.cte_keys
+                                .get(&table_name)
+                                .cloned()
+                                .unwrap_or_else(|| table_name.clone()),
+                        ),
                     }));
                 }
 
